@@ -681,6 +681,50 @@ func (x *explorer) judge(p path, hist []histPart, f *facts, cp *crashPoint, rec 
 	}
 }
 
+// countPipeline counts what the recording run of a group P scenario did (the
+// counters are in min_observed: a run in which the pipeline family did not
+// abort transactions with a failing second target is inconclusive).
+func countPipeline(r *rep.Reporter, sc *scenario, ep *epoch) {
+	spooled := map[string]bool{}
+	for i := range ep.Points {
+		if cp := &ep.Points[i]; cp.Kind == "create" && cp.File == "header" {
+			spooled[cp.MsgID] = true
+		}
+	}
+	abortFailed := map[string]bool{}
+	for _, e := range ep.Events {
+		switch {
+		case e.Kind == "abort" && e.Target != "down" && e.Target != "bounce" && e.Class != mx.OK:
+			abortFailed[e.MsgID] = true
+		case e.Kind == "h.body.refused":
+			if m := sc.msg(e.MsgID); m != nil && m.Fate == fateBodyRefusedByOther {
+				r.Count("pipeline_body_refused_by_other_target", 1)
+			} else {
+				r.Count("pipeline_body_rejected_by_check", 1)
+			}
+		case e.Kind == "h.rcpt.rejected":
+			r.Count("pipeline_rcpt_rejected_by_check", 1)
+		case e.Kind == "h.ack":
+			r.Count("pipeline_transactions_committed", 1)
+		}
+	}
+	for _, e := range ep.Events {
+		if e.Kind != "h.abort" {
+			continue
+		}
+		r.Count("pipeline_transactions_aborted", 1)
+		if abortFailed[e.MsgID] {
+			r.Count("pipeline_aborts_other_target_abort_failed", 1)
+			if spooled[e.MsgID] {
+				r.Count("pipeline_aborts_of_spooled_message_other_target_abort_failed", 1)
+			}
+		}
+		if spooled[e.MsgID] {
+			r.Count("pipeline_aborts_of_spooled_message", 1)
+		}
+	}
+}
+
 func TestVerif(t *testing.T) {
 	r := rep.Open("C02")
 	defer r.Close()
@@ -704,6 +748,18 @@ func TestVerif(t *testing.T) {
 	for k := 0; k < nSizes; k++ {
 		indices = append(indices, sizeBase+k)
 	}
+	// group M (meta_test.go): legitimate values of the stored record (null
+	// reverse-path, unset tracing fields, every optional field set, odd ids)
+	nMeta := r.N(nMetaShapes, 6*nMetaShapes)
+	for k := 0; k < nMeta; k++ {
+		indices = append(indices, metaBase+k)
+	}
+	// group P (pipeline_test.go): transactions aborted through a real pipeline
+	// in which the queue is one of two targets
+	nPipe := r.N(10, 60)
+	for k := 0; k < nPipe; k++ {
+		indices = append(indices, pipeBase+k)
+	}
 	for _, i := range indices {
 		i := i
 		name := fmt.Sprintf("scenario-%d", i)
@@ -711,6 +767,12 @@ func TestVerif(t *testing.T) {
 			p := prng.New(r.Seed(), uint64(i), "c02")
 			var sc *scenario
 			switch {
+			case i >= pipeBase:
+				p = prng.New(r.Seed(), uint64(i), "c02-pipeline")
+				sc = pipeScenario(i, i-pipeBase, p)
+			case i >= metaBase:
+				p = prng.New(r.Seed(), uint64(i), "c02-meta")
+				sc = metaScenario(i, (i-metaBase)%nMetaShapes, p, r.Thorough())
 			case i >= sizeBase:
 				p = prng.New(r.Seed(), uint64(i), "c02-sizes")
 				sc = sizeScenario(i, (i-sizeBase)%nSizeShapes, p, r.Thorough())
@@ -718,6 +780,11 @@ func TestVerif(t *testing.T) {
 				sc = baseScenario(i, i)
 			default:
 				sc = randomScenario(i, p, r.Thorough())
+			}
+			if why := checkNoTerminal(sc); why != "" {
+				// harness error, never a verdict: the oracle cannot tell a
+				// terminal failure of a null-sender message from a loss
+				t.Fatalf("scenario %d (%s): a message without failure reports could fail terminally: %s", i, sc.Name, why)
 			}
 			tmp, err := os.MkdirTemp("", "c02-")
 			if err != nil {
@@ -751,6 +818,9 @@ func TestVerif(t *testing.T) {
 			for k := range ep.OpKinds {
 				r.Distinct("fs_ops_seen", k)
 			}
+			if sc.Pipeline {
+				countPipeline(r, sc, ep)
+			}
 			x := &explorer{t: t, r: r, c: c, sc: sc, tmp: tmp, seen: map[string]bool{}}
 			x.explore(path{}, ep, 1)
 			// size / shape classes this scenario put through the crash-point
@@ -764,6 +834,9 @@ func TestVerif(t *testing.T) {
 				}
 				if m.AddedFields > 0 {
 					r.Count("scenarios_header_fields_added_by_pipeline", 1)
+				}
+				if m.NullSender && ep.Starts[m.ID] > 1 {
+					r.Count("scenarios_null_sender_retried_from_spool", 1)
 				}
 				switch m.BodyKind {
 				case bodyBareLF, bodyBinary, bodyLongLine:
